@@ -166,6 +166,65 @@ func serverFacts(p *pkg, f *facts) {
 	emit("mkdirInvalidates", "NFSProcedureHandler.handleMkdir", "attrCache.InvalidateNegativeInDir(node.path)", "dirCache.Invalidate(node.path)", "attrCache.Invalidate(dirPath)")
 	emit("renameInvalidatesPrefix", "AbsfsNFS.RenameWithContext", "attrCache.InvalidatePrefix(oldPath)", "attrCache.InvalidatePrefix(newPath)", "dirCache.InvalidatePrefix(oldPath)")
 	emit("rmdirUsesLstat", "NFSProcedureHandler.handleRmdir", "fs.Lstat(targetPath)")
+	// 11b. every cache invalidation call of the modifying operations, in source order: the Lean model performs
+	// exactly these (Props.C02 pins the table; the C02 theorems are about the model's invalidations)
+	{
+		fns := []string{"AbsfsNFS.CreateWithContext", "AbsfsNFS.RemoveWithContext", "AbsfsNFS.RenameWithContext", "AbsfsNFS.SetAttr",
+			"AbsfsNFS.Symlink", "AbsfsNFS.WriteWithContext", "NFSProcedureHandler.handleCreate", "NFSProcedureHandler.handleMkdir",
+			"NFSProcedureHandler.handleRmdir", "NFSProcedureHandler.handleSetattr"}
+		var rows []string
+		js := map[string][]string{}
+		missing := ""
+		for _, name := range fns {
+			fd, ok := p.funcs[name]
+			if !ok || fd.Body == nil {
+				missing = name
+				continue
+			}
+			var calls []string
+			ast.Inspect(fd.Body, func(n ast.Node) bool {
+				ce, ok := n.(*ast.CallExpr)
+				if !ok {
+					return true
+				}
+				src := squeeze(exprString(p.fset, ce))
+				for _, c := range []string{"attrCache.Invalidate", "dirCache.Invalidate"} {
+					if i := strings.Index(src, c); i >= 0 && !strings.Contains(src[:i], "(") {
+						calls = append(calls, src[i:])
+					}
+				}
+				return true
+			})
+			short := name[strings.Index(name, ".")+1:]
+			rows = append(rows, fmt.Sprintf("(%q, %s)", short, leanStrList(calls)))
+			js[short] = calls
+		}
+		if missing != "" {
+			f.fail("invalidationSites", "List (String × List String)", "[]", "func "+missing+" not found")
+		} else {
+			f.raw("invalidationSites", "List (String × List String)", "["+strings.Join(rows, ", ")+"]", js)
+		}
+	}
+	// 11c. the two repairs of this round: WRITE refuses symbolic links before the backend is touched; LOOKUP's
+	// directory attributes come from GetAttr
+	if d, ok := p.funcs["NFSProcedureHandler.handleWrite"]; ok {
+		src := squeeze(exprString(p.fset, d.Body))
+		g, w := strings.Index(src, "preAttrs.Mode&os.ModeSymlink!=0"), strings.Index(src, "handler.Write(node,")
+		f.boolean("writeRefusesSymlink", g >= 0 && w > g, true, "")
+	} else {
+		f.boolean("writeRefusesSymlink", false, false, "func handleWrite not found")
+	}
+	{
+		lk, ok1 := p.funcs["NFSProcedureHandler.handleLookup"]
+		hp, ok2 := p.funcs["NFSProcedureHandler.lookupDirAttrs"]
+		if ok1 && ok2 {
+			ls, hs := squeeze(exprString(p.fset, lk.Body)), squeeze(exprString(p.fset, hp.Body))
+			f.boolean("lookupDirAttrsFromGetAttr", !strings.Contains(ls, "*node.attrs") && strings.Count(ls, "h.lookupDirAttrs(node)") == 3 &&
+				strings.Index(hs, "handler.GetAttr(node)") >= 0 && strings.Index(hs, "handler.GetAttr(node)") < strings.Index(hs, "*node.attrs"), true, "")
+		} else {
+			f.boolean("lookupDirAttrsFromGetAttr", false, ok1, "func lookupDirAttrs not found")
+		}
+	}
 	// 12. C07: every name-taking handler validates the name before using it
 	var validating []string
 	for name, fn := range p.funcs {
